@@ -48,3 +48,60 @@ Definition pout_same (m i : pout) : bool :=
   | OHang, OHang => true
   | _, _ => false
   end.
+
+(* ---------- reading (C09) and matching (C08) ---------- *)
+From Coq Require Import String.
+From PG Require Import Ring.Reader Graph.Mol Graph.Match.
+
+Inductive rout :=
+| OFrag (f : fragment)
+| ORule (t : ptree)
+| ORSyntax (line col : nat)
+| ORReader | ORNotImpl | ORInternal | ORHang.
+
+Definition read_text (xd : list N) (xdec : list (N * N)) (xa xl : list N)
+           (rules : list (str * peg)) (root : str) (elements : list (str * N))
+           (fuel : nat) (s : str) : rout :=
+  match parse_text xd xdec xa rules root fuel s with
+  | OTree t =>
+      match kids t with
+      | [c] => if is_node "Fragment"%string c then
+                 match read_fragment elements (assoc_b xl) c with
+                 | ROk' f => OFrag f
+                 | RErr' EReader => ORReader
+                 | RErr' ENotImpl => ORNotImpl
+                 | RErr' EInternal => ORInternal
+                 end
+               else if is_node "ReactionRule"%string c then ORule c
+               else ORInternal
+      | _ => ORInternal
+      end
+  | OSyntax l c => ORSyntax l c
+  | OInternal _ => ORInternal
+  | OHang => ORHang
+  end.
+
+(* outcome classes as the harness reports them: 0 query, 1 syntax, 2 reader,
+   3 not-implemented, 4 internal, 5 hang, 6 rule (compared by C16) *)
+Definition rout_same (m : rout) (cls : nat) (l c : nat) : bool :=
+  match m, cls with
+  | OFrag _, 0%nat => true
+  | ORSyntax l' c', 1%nat => Nat.eqb l l' && Nat.eqb c c'
+  | ORReader, 2%nat => true
+  | ORNotImpl, 3%nat => true
+  | ORInternal, 4%nat => true
+  | ORHang, 5%nat => true
+  | ORule _, _ => true
+  | _, _ => false
+  end.
+
+Fixpoint nats_eqb (a b : list nat) : bool :=
+  match a, b with
+  | [], [] => true
+  | x :: a', y :: b' => Nat.eqb x y && nats_eqb a' b'
+  | _, _ => false
+  end.
+Definition subset (a b : list (list nat)) : bool :=
+  forallb (fun x => existsb (nats_eqb x) b) a.
+Definition same_matches (a b : list (list nat)) : bool :=
+  Nat.eqb (List.length a) (List.length b) && subset a b && subset b a.
